@@ -537,7 +537,7 @@ func c05Diff(ref, got []c05Rec) (int, string) {
 			return i, "error-offset"
 		case a.eptr != b.eptr:
 			switch {
-			case c05SameShapePointer(a.eptr, b.eptr, a.depth):
+			case c05SameShapePointer(a.eptr, b.eptr, c05PointerPrefixLen(a.depth, a.idx)):
 				// only member names strictly inside the value being read differ
 				return i, "error-pointer-name-inside-value-differs"
 			case c05SameShapePointer(a.eptr, b.eptr, 0):
@@ -560,8 +560,8 @@ func c05Diff(ref, got []c05Rec) (int, string) {
 	return -1, ""
 }
 
-// c05SameShapePointer: same number of reference tokens, every purely numeric token equal - i.e. the pointers
-// differ only in object member names - and the first keep tokens identical.
+// c05SameShapePointer: same number of reference tokens, the first keep tokens identical, and no position where two
+// different numbers stand - i.e. the pointers differ only in object member names behind the first keep tokens.
 func c05SameShapePointer(a, b string, keep int) bool {
 	ta, tb := strings.Split(a, "/"), strings.Split(b, "/")
 	if len(ta) != len(tb) {
@@ -585,11 +585,29 @@ func c05SameShapePointer(a, b string, keep int) bool {
 		return true
 	}
 	for i := range ta {
-		if ta[i] != tb[i] && isNum(ta[i]) {
+		// an array index is never a member name: two different numbers are a different kind of error
+		// (a member name that merely looks like a number, e.g. "1", may be replaced by stale bytes)
+		if ta[i] != tb[i] && isNum(ta[i]) && isNum(tb[i]) {
 			return false
 		}
 	}
 	return true
+}
+
+// c05PointerPrefixLen is the number of reference tokens the decoder state contributes to the pointer of an error
+// inside the NEXT value (AppendStackPointer(+1)): one per open container, except that an object waiting for a
+// member name contributes nothing yet.  idx is the StackIndex string of the record (".n" then "{n" / "[n" per level).
+func c05PointerPrefixLen(depth int, idx string) int {
+	if depth == 0 {
+		return 0
+	}
+	i := strings.LastIndexAny(idx, "{[")
+	if i >= 0 && idx[i] == '{' {
+		if n, err := strconv.Atoi(idx[i+1:]); err == nil && n%2 == 0 {
+			return depth - 1
+		}
+	}
+	return depth
 }
 
 type c05Env struct {
